@@ -2,6 +2,7 @@ package props
 
 import (
 	"fmt"
+	"regexp"
 	"strings"
 	"testing"
 
@@ -58,8 +59,52 @@ type C18Case struct {
 var c18Kinds = []string{world.KIngress, world.KIngress, world.KIngress, world.KIngress, world.KEndpoints, world.KService, world.KConfigMap}
 
 func genC18(t *rapid.T) C18Case {
-	g := newG(t, c18Profile())
+	p18 := c18Profile()
+	twinAuth := chanceT(t, "twinauth", 10)
+	if twinAuth {
+		// every auth-url names the same Service name and port: each namespace has a Service of that name, and each
+		// declaration means the one of its own namespace
+		twin := []string{rapid.SampledFrom([]string{"svc://s2:8000", "svc://s1:80"}).Draw(t, "twinurl")}
+		for i := range p18.Bundles {
+			for j := range p18.Bundles[i].Keys {
+				if p18.Bundles[i].Keys[j].Key == "auth-url" {
+					p18.Bundles[i].Keys[j].Values = twin
+				}
+			}
+		}
+	}
+	g := newG(t, p18)
 	g.genWorld()
+	twinURL := ""
+	if twinAuth && len(g.P.NS) > 1 {
+		// ... and the Services of that name have the same ports in every namespace
+		for _, name := range g.svcs() {
+			first := g.W.Get(world.KService, g.P.NS[0]+"/"+name)
+			firstEP := g.W.Get(world.KEndpoints, g.P.NS[0]+"/"+name)
+			for _, ns := range g.P.NS[1:] {
+				svc, ep := g.W.Get(world.KService, ns+"/"+name), g.W.Get(world.KEndpoints, ns+"/"+name)
+				if first == nil || svc == nil {
+					continue
+				}
+				svc.Ports = append([]world.SvcPort{}, first.Ports...)
+				if ep != nil && firstEP != nil && len(firstEP.Subsets) > 0 {
+					for i := range ep.Subsets {
+						ep.Subsets[i].Ports = append([]world.SvcPort{}, firstEP.Subsets[0].Ports...)
+					}
+				}
+				if len(first.Ports) > 0 && twinURL == "" {
+					twinURL = fmt.Sprintf("svc://%s:%d", name, first.Ports[0].Port)
+				}
+			}
+		}
+		if twinURL != "" {
+			for _, o := range g.W.OfKind(world.KIngress) {
+				if o.Ann["auth-url"] != "" {
+					o.Ann["auth-url"] = twinURL
+				}
+			}
+		}
+	}
 	if chanceT(t, "wide", 8) {
 		// one backend published by many paths that share one authentication config, next to a path of the same
 		// backend with another config (the rules of a backend name the path ids, in lines of limited length)
@@ -165,6 +210,64 @@ func frontendConflict(w *world.World, p ctlsim.Params, host string, ing *world.O
 var denyingKeys = []string{"auth-url", "oauth", "auth-type", "auth-secret", "allowlist-source-range", "whitelist-source-range", "denylist-source-range", "limit-rps", "limit-connections", "auth-tls-secret", "waf"}
 
 // c18Result summarises one evaluation of the written configuration.
+var c18SvcURL = regexp.MustCompile(`^svc://([a-z0-9-]+/)?([a-z0-9-]+)(:[0-9a-z]+)?(/.*)?$`)
+
+// authProxyTarget follows a helper backend of the auth proxy (_auth_<port>: one server at 127.0.0.1:<port>) to the bind of
+// the auth proxy frontend that listens on that port and to the backend that frontend uses for it. "" if not resolvable.
+func authProxyTarget(cfg *hapcfg.Config, helper string) string {
+	port := ""
+	for _, sec := range cfg.Sections {
+		if sec.Kind == "backend" && sec.Name == helper {
+			for _, l := range sec.Lines {
+				if l.Tok[0] == "server" && len(l.Tok) > 2 {
+					if i := strings.LastIndex(l.Tok[2], ":"); i >= 0 {
+						port = l.Tok[2][i+1:]
+					}
+				}
+			}
+		}
+	}
+	if port == "" {
+		return ""
+	}
+	for _, sec := range cfg.Sections {
+		if sec.Kind != "frontend" {
+			continue
+		}
+		id, found, nbinds := "", false, 0
+		for _, l := range sec.Lines {
+			if l.Tok[0] == "bind" && len(l.Tok) > 1 && strings.HasPrefix(l.Tok[1], "127.0.0.1:") {
+				nbinds++
+				if l.Tok[1] == "127.0.0.1:"+port {
+					found = true
+					for i, t := range l.Tok {
+						if t == "id" && i+1 < len(l.Tok) {
+							id = l.Tok[i+1]
+						}
+					}
+				}
+			}
+		}
+		if !found {
+			continue
+		}
+		for _, l := range sec.Lines {
+			if l.Tok[0] != "use_backend" || len(l.Tok) < 2 {
+				continue
+			}
+			if len(l.Tok) == 2 && nbinds == 1 {
+				return l.Tok[1]
+			}
+			for i, t := range l.Tok {
+				if t == "so_id" && i+1 < len(l.Tok) && l.Tok[i+1] == id && id != "" {
+					return l.Tok[1]
+				}
+			}
+		}
+	}
+	return ""
+}
+
 type c18Result struct {
 	protectedReqs, unprotectedReqs, incon, dishonoured int
 	hasProtected, hasUnprotected                       bool
@@ -259,6 +362,35 @@ func c18Eval(s *ctlsim.Sim, objs []*world.Obj, params ctlsim.Params) (*Failure, 
 			}
 			if !intercepted {
 				r.dishonoured++
+			}
+			// auth-url svc://name:port names a Service of the namespace of the declaration: the helper backend that the
+			// interception calls must lead, through the auth proxy frontend, to a backend of that very Service
+			if m := c18SvcURL.FindStringSubmatch(authURL); m != nil && hasURL && !hasOAuth && !hostHasFrontendPlacement(w, params, host) {
+				ns := ing.NS
+				if m[1] != "" {
+					ns = strings.TrimSuffix(m[1], "/")
+				}
+				var calls []string
+				for _, e := range res.Effects {
+					if e.Kind == "lua.auth-intercept" {
+						if f := strings.Fields(e.Raw); len(f) > 2 {
+							for i, tok := range f {
+								if tok == "lua.auth-intercept" && i+1 < len(f) {
+									calls = append(calls, f[i+1])
+								}
+							}
+						}
+					}
+				}
+				if len(calls) == 1 {
+					if authProxyTarget(cfg, calls[0]) != "" {
+						getStats("C18").Count("auth_call_targets_checked", 1)
+					}
+					if target := authProxyTarget(cfg, calls[0]); target != "" && !strings.HasPrefix(target, ns+"_"+m[2]+"_") {
+						return failf2(r, "C18:auth-call-reaches-another-service", "request %s matches rule %v of ingress %s with auth-url %s; its authentication call goes to %s, which the auth proxy frontend sends to backend %s - not a backend of Service %s/%s",
+							rq, rule.C04Rule, rule.Ing, authURL, calls[0], target, ns, m[2])
+					}
+				}
 			}
 			continue
 		}
